@@ -339,6 +339,9 @@ impl World {
 fn ldb_opts() -> Options {
     let mut o = Options::default();
     o.create_if_missing = true;
+    // as the node's LevelDB does: every (re)opening starts a new write-ahead log and MANIFEST, so the file numbers of an index
+    // grow with the number of restarts it has seen
+    o.reuse_logs = false;
     o
 }
 
